@@ -105,6 +105,7 @@ def plan(tier):
         Cond(H, "compact_header_decoding", "main", T, "compact: header b64/JSON failure, non-object header, kid of every JSON type"),
         Cond(H, "compact_reject_witness", "witness", 60),
         Cond(H, "twostep_compact", "main", T, "two-step API: extract_compact of two tokens in either order, validate_compact judges the token it was given"),
+        Cond(H, "history_two_calls", "main", T, "two calls in one process (compact, flattened, general, RFC 7797 json/compact): the second token re-uses the first one's protected (and signature) segment over another payload and is decided by its own MAC comparison"),
         Cond(H, "compact_asym", "main", T * 2, "compact: 11 asymmetric algs x 9 key kinds x 5 signature lengths x verdict; RFC parameter table"),
         Cond(H, "compact_asym_witness", "witness", 300),
         Cond(H, "general_json_kf0", "main", T * 2, "general JSON 0..2 signatures, key given directly"),
